@@ -152,7 +152,7 @@ def nplike_ok(env, t, obj, exp, what):
         d = V.diff(got, exp) if len(exp) and all(int(s) > 0 for s in obj._shape) else None
         ok = env.check(d is None and shape_ok, f"{what} to_nplike()/to_nparray() return the array's values indexed like the array ({meth}: {d})") and ok
         if meth == "to_nplike" and arr.size > 0 and d is None:
-            # a typed array view ALIASES the buffer bytes (symbolic buffers: write-back views, stub S11)
+            # a typed array view ALIASES the buffer bytes (symbolic buffers: write-back views, stub S14)
             idx0 = tuple(0 for _ in arr.shape)
             old = arr[idx0]
             new = other_scalar(t[1], old.item(), 1)
